@@ -590,6 +590,85 @@ class FakeRangeIndex(FakeIndex):
     pass
 
 
+def _concrete_key(k):
+    """a row selector made concrete: ('slice', s) | ('bool', [..]) | ('int', [..]); symbolic booleans fork (glue runs)"""
+    if isinstance(k, slice):
+        return "slice", k
+    if isinstance(k, FakeSeries):
+        k = k.arr
+    if isinstance(k, A):
+        if k.kind == "b":
+            return "bool", [bool(c) for c in k.cells]          # bool(z3 term) forks under run_paths
+        if any(is_sym(c) for c in k.cells):
+            raise Unsupported("symbolic integer row selector on a labelled pandas object")
+        return "int", [int(c) for c in k.cells]
+    if isinstance(k, (list, real_np.ndarray)):
+        arr = real_np.asarray(k)
+        return ("bool", [bool(x) for x in arr]) if arr.dtype.kind == "b" else ("int", [int(x) for x in arr])
+    raise OutsideModel(f"row selector {type(k).__name__}")
+
+
+def _select(seq_len, key):
+    kind, k = key
+    if kind == "slice":
+        return list(range(seq_len))[k]
+    if kind == "bool":
+        if len(k) != seq_len:
+            raise IndexError("Boolean index has wrong length")
+        return [i for i, b in enumerate(k) if b]
+    out = []
+    for i in k:
+        j = i + seq_len if i < 0 else i
+        if not 0 <= j < seq_len:
+            raise IndexError("positional indexers are out-of-bounds")
+        out.append(j)
+    return out
+
+
+class LIndex(FakeIndex):
+    """contract model of a flat pandas Index with concrete, pairwise distinct labels (group labels of a directly constructed state)"""
+    def __init__(self, labels, name=None, categorical=False):
+        self.categorical = categorical
+        self.labels = list(labels)
+        self.n = len(self.labels)
+        self.names = [name]
+        self.nlevels = 1
+        self.name = name
+
+    @property
+    def dtype(self):
+        if self.categorical:
+            return PDShim.CategoricalDtype()
+        return real_np.dtype("int64") if all(isinstance(x, int) for x in self.labels) else (
+            real_np.dtype("float64") if all(isinstance(x, (int, float)) for x in self.labels) else real_np.dtype("O"))
+
+    @property
+    def is_monotonic_increasing(self):
+        return all(a <= b for a, b in zip(self.labels, self.labels[1:]))
+
+    def argsort(self, *a, **k):
+        return A([int(i) for i in sorted(range(self.n), key=lambda i: self.labels[i])], "int64")
+
+    def __getitem__(self, k):
+        if isinstance(k, (int, real_np.integer)):
+            return self.labels[k]
+        rows = _select(self.n, _concrete_key(k))
+        return LIndex([self.labels[i] for i in rows], self.name, self.categorical)
+
+    def __iter__(self):
+        return iter(self.labels)
+
+    def equals(self, o):
+        return isinstance(o, LIndex) and o.labels == self.labels
+
+    def locate(self, lab):
+        """label lookup the way pandas does it: numbers match numerically, anything else by equality"""
+        for i, x in enumerate(self.labels):
+            if x == lab and isinstance(x, (int, float)) == isinstance(lab, (int, float)):
+                return i
+        return None
+
+
 class FakeChunked(_S):
     def __init__(self, chunks):
         self.chunks = list(chunks)
@@ -657,6 +736,8 @@ class FakeSeries(_S):
         return FakeSeries(self.arr.astype(dt), self.index, name=self.name)
 
     def _bin(self, o, f):
+        if isinstance(o, FakeSeries) and isinstance(o.index, LIndex) and isinstance(self.index, LIndex) and o.index.labels != self.index.labels:
+            raise OutsideModel("arithmetic between Series with different indexes (label alignment)")
         oa = o.arr if isinstance(o, FakeSeries) else o
         return FakeSeries(f(self.arr, oa), self.index, name=self.name)
 
@@ -667,22 +748,121 @@ class FakeSeries(_S):
     def __truediv__(self, o): return self._bin(o, lambda a, b: a / b)
     def __rtruediv__(self, o): return self._bin(o, lambda a, b: b / a)
     def __pow__(self, k): return FakeSeries(self.arr ** k, self.index, name=self.name)
+    def __floordiv__(self, o): return self._bin(o, lambda a, b: a // b)
+    def __gt__(self, o): return self._bin(o, lambda a, b: a > b)
+    def __ge__(self, o): return self._bin(o, lambda a, b: a >= b)
+    def __lt__(self, o): return self._bin(o, lambda a, b: a < b)
+    def __le__(self, o): return self._bin(o, lambda a, b: a <= b)
+
+    def all(self):
+        return self.arr.all()
+
+    def any(self):
+        return self.arr.any()
 
     def __getitem__(self, k):
+        if isinstance(self.index, LIndex) and not isinstance(k, slice):
+            key = _concrete_key(k)
+            if key[0] == "int":
+                # pandas >= 3: Series[list of integers] is a LABEL lookup, never positional
+                pos = [self.index.locate(i) for i in key[1]]
+                if any(p is None for p in pos):
+                    raise KeyError(f"{[i for i, p in zip(key[1], pos) if p is None]} not in index")
+                return self._rows(pos)
+            return self._rows(_select(len(self), key))
         return self.arr[k]
+
+    def _rows(self, pos):
+        return FakeSeries(self.arr[real_np.array(pos, dtype=int)], LIndex([self.index.labels[i] for i in pos], self.index.name, self.index.categorical), name=self.name)
+
+    @property
+    def iloc(self):
+        return _ILoc(self)
+
+    @property
+    def loc(self):
+        return _Loc(self)
+
+    def reindex(self, index):
+        if not isinstance(self.index, LIndex) or not isinstance(index, LIndex):
+            return self
+        if index.labels == self.index.labels:
+            return FakeSeries(self.arr, index, name=self.name)
+        pos = [self.index.locate(lab) for lab in index.labels]
+        if any(p is None for p in pos):
+            raise OutsideModel(f"reindex onto labels that are absent (would introduce NaN): {self.index.labels} -> {index.labels}")
+        return self._rows(pos)
+
+
+class _ILoc:
+    def __init__(self, obj):
+        self.obj = obj
+
+    def __getitem__(self, k):
+        o = self.obj
+        if isinstance(o, FakeFrame):
+            if isinstance(k, tuple):
+                rows, col = k
+                if rows != slice(None) or not isinstance(col, int):
+                    raise OutsideModel("DataFrame.iloc with a general 2-D key")
+                return o[o.columns[col]]
+            return o._rows(_select(len(o), _concrete_key(k)))
+        if not isinstance(o.index, LIndex):
+            return o.arr[k]
+        return o._rows(_select(len(o), _concrete_key(k)))
+
+
+class _Loc(_ILoc):
+    def __getitem__(self, k):
+        key = _concrete_key(k)
+        if key[0] != "bool":
+            raise OutsideModel(".loc with a non-boolean key")
+        o = self.obj
+        return o._rows(_select(len(o), key))
 
 
 class FakeFrame(_S):
     def __init__(self, data=None, copy=None, index=None):
         self.data = dict(data)
         self.columns = list(self.data)
+        if index is None:
+            for v in self.data.values():
+                if isinstance(v, FakeSeries) and v.index is not None:
+                    index = v.index
+                    break
         self.index = index
 
     def __getitem__(self, c):
-        return self.data[c]
+        v = self.data[c]
+        if isinstance(self.index, LIndex) and not isinstance(v, FakeSeries):
+            v = FakeSeries(v, self.index, name=c)
+        return v
+
+    def __iter__(self):
+        return iter(self.columns)
 
     def __len__(self):
         return len(next(iter(self.data.values()))) if self.data else 0
+
+    def _rows(self, pos):
+        if not isinstance(self.index, LIndex):
+            raise OutsideModel("row selection on a frame without a labelled index model")
+        idx = LIndex([self.index.labels[i] for i in pos], self.index.name, self.index.categorical)
+        sel = real_np.array(pos, dtype=int)
+        out = {}
+        for c in self.columns:
+            v = self.data[c]
+            arr = v.arr if isinstance(v, FakeSeries) else v
+            out[c] = FakeSeries(arr[sel], idx, name=c)
+        return FakeFrame(out, index=idx)
+
+    @property
+    def iloc(self):
+        return _ILoc(self)
+
+    @property
+    def loc(self):
+        return _Loc(self)
 
 
 class PDShim:
